@@ -58,6 +58,7 @@ type Case struct {
 	Pre   []Call `json:"pre,omitempty"`
 	Adds2 []int  `json:"adds2,omitempty"`
 	Rems2 []int  `json:"rems2,omitempty"`
+	Load2 bool   `json:"load2,omitempty"` // the change is a JSON load of Adds2 (FromJSON / UnmarshalJSON / json.Unmarshal) instead of insertions and removals
 }
 
 func check(c Case) (pbt.Info, error) {
@@ -165,7 +166,14 @@ func check(c Case) (pbt.Info, error) {
 		if err := drive(c.Pre, "(before the mutation) "); err != nil {
 			return info, err
 		}
-		cont.Mutate(c.Adds2, c.Rems2)
+		if c.Load2 {
+			if err := cont.Load(c.Adds2); err != nil {
+				return info, fmt.Errorf("%s: loading %v failed: %v", c.Spec.Kind, c.Adds2, err)
+			}
+			info.Label("rewound-after-json-load")
+		} else {
+			cont.Mutate(c.Adds2, c.Rems2)
+		}
 		seq = cont.Seq()
 		n = len(seq)
 		if len(c.Calls) == 0 || !slices.Contains([]string{"begin", "end", "first", "last"}, c.Calls[0].C) {
@@ -204,7 +212,11 @@ var ringCaps = []int{1, 2, 3, 5, 8}
 func genSpec(t *rapid.T, kind string) iters.Spec {
 	s := iters.Spec{Kind: kind}
 	switch kind {
-	case "treeset", "treemap", "redblacktree", "avltree", "btree", "priorityqueue", "binaryheap":
+	case "priorityqueue", "binaryheap":
+		// heaps also with many-to-one orders: distinct elements that tie (the
+		// iterator must still walk exactly the Values() sequence)
+		s.Cmp = dom.AllCmps[rapid.IntRange(0, len(dom.AllCmps)-1).Draw(t, "cmp")]
+	case "treeset", "treemap", "redblacktree", "avltree", "btree":
 		s.Cmp = dom.TotalCmps[rapid.IntRange(0, len(dom.TotalCmps)-1).Draw(t, "cmp")]
 	case "treebidimap":
 		s.Cmp = dom.TotalCmps[rapid.IntRange(0, len(dom.TotalCmps)-1).Draw(t, "cmp")]
@@ -227,6 +239,12 @@ func genSpec(t *rapid.T, kind string) iters.Spec {
 		s.Adds = append(s.Adds, rapid.SliceOfN(rapid.IntRange(0, hi), 40, 200).Draw(t, "more")...)
 	}
 	s.Rems = rapid.SliceOfN(rapid.IntRange(0, hi), 0, 3).Draw(t, "rems")
+	switch kind {
+	case "arraylist", "singlylinkedlist", "doublylinkedlist":
+		if rapid.IntRange(0, 2).Draw(t, "front") == 0 {
+			s.Front = rapid.SliceOfN(rapid.IntRange(0, hi), 1, 7).Draw(t, "front-values")
+		}
+	}
 	if kind == "redblacktree" && len(s.Adds) > 0 && rapid.IntRange(0, 3).Draw(t, "at") == 0 {
 		at := s.Adds[rapid.IntRange(0, len(s.Adds)-1).Draw(t, "atkey")]
 		s.At = &at
@@ -318,6 +336,7 @@ func genStale(kind string) func(t *rapid.T) Case {
 			// as many leave as arrive: caches keyed on the size stay "valid"
 			c.Rems2 = slices.Clone(c.Spec.Adds[:min(len(c.Spec.Adds), len(c.Adds2))])
 		}
+		c.Load2 = rapid.IntRange(0, 4).Draw(t, "json-load") == 0
 		jumps := []string{"begin", "first", "end", "last"}
 		if fwdOnly {
 			jumps = jumps[:2]
